@@ -185,9 +185,15 @@ Create HintDb pres discriminated.
 #[local] Hint Extern 8 (pres newPO _) => apply (pres_weaken svbPO newPO _ _ svb_new) : pres.
 #[local] Hint Extern 9 (pres claimsPO _) => apply (pres_weaken newPO claimsPO _ _ new_claims) : pres.
 
+(* extension point of [pres_step] for compound patterns that must be handled as a
+   whole (rebound below, after the lemma on claim-then-release has been proved) *)
+Ltac pres_hook := fail.
+
 (* one syntactic step of a footprint proof *)
 Ltac pres_step :=
   cbv beta;
+  first [ pres_hook | pres_step_syntax ]
+with pres_step_syntax :=
   lazymatch goal with
   | |- pres _ (bind _ _) => apply pres_bind; [|intro]
   | |- pres _ (ret _) => apply pres_ret
@@ -740,6 +746,39 @@ Proof.
   - destruct (path_eqb q p) eqn:E; cbn [files_get]; rewrite E; [reflexivity | apply IH].
 Qed.
 
+Lemma files_get_set : forall l p o q,
+  files_get (files_set l p o) q = if path_eqb p q then Some o else files_get l q.
+Proof.
+  induction l as [|[q' o'] l IH]; intros p o q; cbn [files_set files_get].
+  - reflexivity.
+  - destruct (path_eqb q' p) eqn:E; cbn [files_get].
+    + apply path_eqb_eq in E. subst q'. destruct (path_eqb p q); reflexivity.
+    + rewrite IH. destruct (path_eqb q' q) eqn:E1; [|reflexivity].
+      destruct (path_eqb p q) eqn:E2; [|reflexivity].
+      apply path_eqb_eq in E1. apply path_eqb_eq in E2. subst. rewrite path_eqb_refl in E. discriminate E.
+Qed.
+
+Lemma files_get_del : forall l p q,
+  files_get (files_del l p) q = if path_eqb p q then None else files_get l q.
+Proof.
+  induction l as [|[q' o'] l IH]; intros p q; cbn [files_del files_get].
+  - destruct (path_eqb p q); reflexivity.
+  - destruct (path_eqb q' p) eqn:E; cbn [files_get].
+    + rewrite IH. apply path_eqb_eq in E. subst q'. destruct (path_eqb p q); reflexivity.
+    + rewrite IH. destruct (path_eqb q' q) eqn:E1; [|reflexivity].
+      destruct (path_eqb p q) eqn:E2; [|reflexivity].
+      apply path_eqb_eq in E1. apply path_eqb_eq in E2. subst. rewrite path_eqb_refl in E. discriminate E.
+Qed.
+
+(* releasing a claim on a path that was free before the claim restores the old key set *)
+Lemma files_get_del_set_free : forall l p o q,
+  files_get l p = None -> files_get (files_del (files_set l p o) p) q = files_get l q.
+Proof.
+  intros l p o q Hfree. rewrite files_get_del, files_get_set.
+  destruct (path_eqb p q) eqn:E; [|reflexivity].
+  apply path_eqb_eq in E. subst q. symmetry. exact Hfree.
+Qed.
+
 Lemma files_set_keeps : forall l q o p,
   (exists x, files_get l p = Some x) -> exists y, files_get (files_set l q o) p = Some y.
 Proof.
@@ -829,6 +868,54 @@ Proof.
   apply claims_le_cache_le. cbn. apply cache_le_files_set.
 Qed.
 
+(* [new_abort_building_file] alone does not preserve claims (it deletes a key), but it only
+   runs right after [new_start_building_file p] succeeded, i.e. [p] was free before, and the
+   guarded computation in between leaves the new cache alone: the claim-then-release block
+   as a whole is monotone. *)
+Lemma claim_guarded_claims : forall p A B (m : M A) (k : A -> M B),
+  pres newPO m -> (forall a, pres claimsPO (k a)) ->
+  pres claimsPO
+    (bind (new_start_building_file p)
+          (fun _ => bind (catch m (fun e => bind (new_abort_building_file p) (fun _ => raise e))) k)).
+Proof.
+  intros p A B m k Hm Hk w w' r H.
+  apply bind_inv in H. destruct H as [(w1 & u & E1 & H) | (e & E1 & _)].
+  2: exact (new_start_building_file_claims p w w' _ E1).
+  assert (C1 : claims_le w w1) by exact (new_start_building_file_claims p w w1 _ E1).
+  unfold new_start_building_file in E1.
+  apply bind_inv in E1. destruct E1 as [(w0 & u0 & E0 & E1) | (e & _ & E1)]; [|discriminate E1].
+  assert (Hfree : cache_has_file (w_new w) p = false /\ w0 = w).
+  { unfold new_assert_no_file in E0. apply bind_inv in E0.
+    destruct E0 as [(w00 & a0 & G & E0) | (e & G & _)]; [|inversion G].
+    inversion G; subst w00 a0. destruct (cache_has_file (w_new w) p); [inversion E0|].
+    inversion E0; subst. split; reflexivity. }
+  destruct Hfree as [Hfree ->]. unfold modify in E1. inversion E1; subst w1; clear E1 E0.
+  apply bind_inv in H. destruct H as [(w2 & a & E2 & H) | (e & E2 & _)].
+  - eapply claims_le_trans; [|exact (Hk a _ _ _ H)].
+    apply catch_inv in E2. destruct E2 as [(a' & E2 & _) | (w3 & e & _ & E3)].
+    + eapply claims_le_trans; [exact C1|]. apply new_claims. exact (Hm _ _ _ E2).
+    + apply bind_inv in E3. destruct E3 as [(w4 & u4 & _ & E3) | (e' & _ & E3)];
+        [inversion E3 | discriminate E3].
+  - apply catch_inv in E2. destruct E2 as [(a' & _ & E2) | (w3 & e0 & E2 & E3)]; [discriminate E2|].
+    apply Hm in E2. destruct E2 as (N & _ & _).
+    apply bind_inv in E3. destruct E3 as [(w4 & u4 & E3 & E4) | (e' & E3 & _)]; [|inversion E3].
+    inversion E4; subst w4. unfold new_abort_building_file, modify in E3. inversion E3; subst w'.
+    apply claims_le_cache_le. cbn [w_new set_new]. rewrite N. cbn [w_new set_new].
+    unfold cache_has_file in Hfree.
+    destruct (files_get (c_files (w_new w)) p) eqn:Hg; [discriminate Hfree|].
+    split.
+    + intros q Hq. unfold cache_has_file in *. cbn [c_files cache_with] in *.
+      rewrite files_get_del_set_free by exact Hg. exact Hq.
+    + intros q Hq. exact Hq.
+Qed.
+
+(* from here on [pres_auto] treats the claim-then-release block as one step *)
+Ltac pres_hook ::=
+  lazymatch goal with
+  | |- pres claimsPO (bind (new_start_building_file _) (fun _ => bind (catch _ _) _)) =>
+      apply claim_guarded_claims; [|intro]
+  end.
+
 Lemma new_finish_building_file_claims : forall p o, pres claimsPO (new_finish_building_file p o).
 Proof.
   intros p o. unfold new_finish_building_file. apply pres_modify. intro w.
@@ -874,12 +961,16 @@ Ltac claims_facts :=
                          | refine ((_ : pres claimsPO m) w w1 _ E); solve [pres_auto] ])
       end
   end.
+(* The [set_log] step is only taken when a collected fact continues the chain from there:
+   taken unconditionally it always succeeds, and [repeat] then diverges as soon as one
+   fact is missing. *)
 Ltac cl_chain :=
   repeat first [ eassumption
                | apply claims_le_refl
                | apply claims_le_set_log
                | eapply claims_le_trans; [eassumption|]
-               | eapply claims_le_trans; [apply claims_le_set_log|] ].
+               | eapply claims_le_trans; [apply claims_le_set_log|];
+                 first [ eassumption | eapply claims_le_trans; [eassumption|] ] ].
 
 Lemma m_build_file_claims_mono : forall p c f a kw fn w w' r,
   (forall p' a' k' v v' r', fn p' a' k' v = (v', r') -> claims_le v v') ->
